@@ -137,6 +137,8 @@ def run_obligation(ctx, obl, want_trace=False, trace_props=()):
     use_instr = obl.enforce or obl.replace or obl.loops or obl.instr
     if use_instr:
         gi = ["goto-instrument", "--dfcc", obl.entry]
+        if "--no-malloc-may-fail" not in obl.instr:
+            gi += ["--no-malloc-may-fail"]
         if obl.enforce:
             gi += ["--enforce-contract", obl.enforce]
         for f in obl.replace:
@@ -158,7 +160,7 @@ def run_obligation(ctx, obl, want_trace=False, trace_props=()):
         cb += ["--object-bits", "10"]
     cb += obl.cbmc
     if obl.solver:
-        cb += [obl.solver] if obl.solver.startswith("--") else ["--external-sat-solver", obl.solver]
+        cb += obl.solver.split() if obl.solver.startswith("--") else ["--external-sat-solver", obl.solver]
     if obl.canary and "--drop-unused-functions" not in cb:
         cb += ["--drop-unused-functions"]      # cover goals of other entry points in the same TU are not ours
     if want_trace:
@@ -197,9 +199,18 @@ def run_obligation(ctx, obl, want_trace=False, trace_props=()):
         return r
     r.n_props = len(results)
     r.raw_results = results
+    odd = []
     for pr in results:
         if pr.get("status") == "FAILURE":
             r.failed.append((pr.get("property", "?"), pr.get("description", "")))
+        elif pr.get("status") != "SUCCESS":
+            odd.append("%s=%s" % (pr.get("property", "?"), pr.get("status")))
+    if any(isinstance(it, dict) and it.get("cProverStatus") == "error" for it in data):
+        odd.append("cProverStatus=error")
+    if odd and not want_trace:
+        r.status = "error"
+        r.detail += "undecided cbmc properties (solver answered unknown / error): " + ", ".join(odd[:6])
+        return r
     if "QUANTIFIER IGNORED" in r.detail:
         r.status = "error"
         return r
@@ -231,7 +242,7 @@ def classify(obl, failed):
             (plevel if obl.termination else unw).append((pid, desc))
         elif any(re.search(p, pid) for p in AUX_PATTERNS) or \
                 re.search(r"loop invariant|decreases clause|loop variant", desc):
-            if obl.termination and re.search(r"decreases|variant", pid + desc):
+            if obl.termination and re.search(r"decreases|(?<!in)variant", pid + " " + desc):
                 plevel.append((pid, desc))
             else:
                 aux.append((pid, desc))
@@ -530,7 +541,7 @@ def run_check(prop, tier, seed, obligations, ctx, level, functions, assumptions,
     with open(os.path.join(VERIF, "evidence", prop + ".json"), "w") as f:
         json.dump(ev, f, indent=1)
     # ---------------- report
-    for l in known_lines:
+    for l in sorted(set(known_lines)):
         print(l)
     for o, aux in degraded:
         print("PROOF-DEGRADED obligation=%s failed=%s" % (o.name, ",".join(p for p, _ in aux[:3])))
